@@ -188,6 +188,9 @@ pub struct SettingsSpec {
     pub linesearch_backtrack_step: f64,
     pub max_threads: u32,
     pub chordal: bool,
+    /// reduced ("almost") tolerances: 0 default; 1 gap abs 1e-2 / rel 1e-10; 2 gap abs 1e-10 / rel 1e-2;
+    /// 3 feas 1e-2; 4 infeas abs 1e-2 / rel 1e-10; 5 infeas abs 1e-10 / rel 1e-2
+    pub reduced_profile: u8,
 }
 
 impl Default for SettingsSpec {
@@ -206,6 +209,7 @@ impl Default for SettingsSpec {
             linesearch_backtrack_step: 0.8,
             max_threads: 0,
             chordal: false,
+            reduced_profile: 0,
         }
     }
 }
@@ -252,6 +256,26 @@ impl SettingsSpec {
         s.linesearch_backtrack_step = self.linesearch_backtrack_step;
         s.max_threads = self.max_threads;
         s.chordal_decomposition_enable = self.chordal;
+        match self.reduced_profile {
+            1 => {
+                s.reduced_tol_gap_abs = 1e-2;
+                s.reduced_tol_gap_rel = 1e-10;
+            }
+            2 => {
+                s.reduced_tol_gap_abs = 1e-10;
+                s.reduced_tol_gap_rel = 1e-2;
+            }
+            3 => s.reduced_tol_feas = 1e-2,
+            4 => {
+                s.reduced_tol_infeas_abs = 1e-2;
+                s.reduced_tol_infeas_rel = 1e-10;
+            }
+            5 => {
+                s.reduced_tol_infeas_abs = 1e-10;
+                s.reduced_tol_infeas_rel = 1e-2;
+            }
+            _ => {}
+        }
         s
     }
     pub fn to_json(&self) -> Value {
@@ -263,6 +287,7 @@ impl SettingsSpec {
             "max_step_fraction": self.max_step_fraction, "equilibrate_max_iter": self.equilibrate_max_iter,
             "max_iter": self.max_iter, "linesearch_backtrack_step": self.linesearch_backtrack_step,
             "max_threads": self.max_threads, "chordal_decomposition_enable": self.chordal,
+            "reduced_tolerances": (["default","gap abs 1e-2 / rel 1e-10","gap abs 1e-10 / rel 1e-2","feas 1e-2","infeas abs 1e-2 / rel 1e-10","infeas abs 1e-10 / rel 1e-2"][self.reduced_profile as usize]),
         })
     }
 
